@@ -262,6 +262,104 @@ def ambient_streams(ctx):
     ctx.count('ambient_stream_runs', 3 * 4 * 2 * len(docs))
 
 
+def capture_protocol(ctx):
+    """utils.CaptureStdout, the object DocTest.run wraps around every part, driven directly: random sequences of parts over ONE
+    capture object (as run does), each part a list of actions (write text incl. carriage returns / non-ASCII, swap sys.stdout and maybe
+    swap back, nest another capture, raise an exception - truthy, falsy, BaseException).  Against a reference written from the
+    contract: what was written while the capture stream was sys.stdout is the part's text (exactly, once), the ambient stream gets it
+    iff not suppressed, sys.stdout is the ambient stream again after every part, and an exception always propagates"""
+    from xdoctest import utils
+    import io
+    rng = ctx.rng('capture')
+
+    class Falsy(Exception):
+        def __bool__(self):
+            return False
+
+    TEXTS = ['a\n', 'x', '', 'two\nlines\n', 'cr\rover\r\n', 'caf\xe9 \u2028 \x0c\n', 'tab\t\n', ' ', '\n\n']
+    EXCS = [None, None, None, ValueError('v'), Falsy('f'), KeyboardInterrupt(), SystemExit(2), GeneratorExit()]
+    nscen = 400 if ctx.tier == 'quick' else 8000
+    for sc in range(nscen):
+        suppress = rng.random() < 0.5
+        ambient = io.StringIO()
+        real = sys.stdout
+        sys.stdout = ambient
+        problem = None
+        script = []
+        try:
+            cap = utils.CaptureStdout(suppress=suppress)
+            ref_amb = ''
+            for part in range(rng.randint(1, 4)):
+                actions = [rng.choice(['write', 'write', 'write', 'swap', 'swap_back', 'nest']) for _ in range(rng.randint(0, 4))]
+                exc = rng.choice(EXCS)
+                script.append((actions, type(exc).__name__ if exc is not None else None))
+                ref_text = ''
+                raised = None
+                try:
+                    with cap:
+                        swapped = None
+                        for a in actions:
+                            if a == 'write':
+                                t = rng.choice(TEXTS)
+                                sys.stdout.write(t)
+                                if swapped is None:
+                                    ref_text += t
+                                    if not suppress:
+                                        ref_amb += t
+                            elif a == 'swap' and swapped is None:
+                                swapped = sys.stdout
+                                sys.stdout = io.StringIO()
+                            elif a == 'swap_back' and swapped is not None:
+                                sys.stdout = swapped
+                                swapped = None
+                            elif a == 'nest' and swapped is None:
+                                inner = utils.CaptureStdout(suppress=True)
+                                with inner:
+                                    sys.stdout.write('inner')
+                                if inner.text != 'inner':
+                                    problem = 'nested capture recorded %r' % (inner.text,)
+                        if exc is not None:
+                            raise exc
+                except BaseException as e:      # noqa
+                    raised = e
+                if exc is not None and raised is not exc:
+                    problem = 'the exception %r raised inside the captured part did not propagate (got %r)' % (exc, raised)
+                elif exc is None and raised is not None:
+                    problem = 'an exception appeared from nowhere: %r' % (raised,)
+                elif sys.stdout is not ambient:
+                    problem = 'after part %d sys.stdout is not the ambient stream' % part
+                elif cap.text != ref_text:
+                    problem = 'part %d: recorded text %r, written while captured %r' % (part, cap.text, ref_text)
+                elif ambient.getvalue() != ref_amb:
+                    problem = 'part %d: the ambient stream holds %r, expected %r (suppress=%s)' % (part, ambient.getvalue(), ref_amb, suppress)
+                if problem:
+                    break
+        except BaseException as e:      # noqa
+            problem = 'the capture protocol raised %s: %s' % (type(e).__name__, str(e)[:100])
+        finally:
+            sys.stdout = real
+        ctx.evaluations += 1
+        if problem:
+            ctx.violation('capture-protocol', {'what': problem, 'suppress': suppress, 'script': script, 'scenario': sc, 'seed_used': ctx.seed, 'pid_used': ctx.pid,
+                          'tier_used': ctx.tier, 'theorem_or_correspondence': 'C12_run_restores / C01_capture_exact on utils.CaptureStdout (reference protocol)'}, True)
+            return
+    ctx.count('capture_protocol_scenarios', nscen)
+
+
+def replay_capture_protocol(d, path, pid):
+    """re-runs the scenario stream of the recorded seed and reports whether a scenario still breaks the protocol"""
+    ctx2 = common.Ctx(d.get('pid_used', pid), d.get('tier_used', 'quick'), d.get('seed_used', 0))
+    found = []
+    ctx2.violation = lambda kind, payload, found_input=True: found.append(payload)
+    capture_protocol(ctx2)
+    if found:
+        print('capture protocol: %s\nscript (actions, exception) per part: %r' % (found[0]['what'], found[0]['script']))
+        print('VIOLATION property=%s replay=%s' % (pid, path))
+        return 1
+    print('capture protocol: all scenarios of seed %r behave like the reference' % d.get('seed_used'))
+    return 0
+
+
 def import_cases(ctx):
     from xdoctest.utils import util_import
     from xdoctest import doctest_example
@@ -494,6 +592,7 @@ def run(ctx):
             break
     import_cases(ctx)
     ambient_streams(ctx)
+    capture_protocol(ctx)
     ctx.add_rule('PythonPathContext: seeded sys.path lists x index in {-1,0,1,2,-2,len,-(len+1)} x 11 body manipulations vs model; '
                  'DocTest.run: 9 body flavours (prints, replaces sys.stdout with/without restoring, closes the stream found in sys.stdout directly or through `with`, alters warning filters / showwarning, awaits, touches stderr) x '
                  '10 endings (pass, mismatch, exception, expected exception, ExitTestException, pytest.skip, skipped tail, SystemExit, KeyboardInterrupt, compile error) '
@@ -508,6 +607,8 @@ def run(ctx):
 
 def replay(path):
     d = json.load(open(path))
+    if d.get('kind') == 'capture-protocol':
+        return replay_capture_protocol(d, path, 'C12')
     if 'doctest' in d:
         from xdoctest import doctest_example
         ex = doctest_example.DocTest(docsrc=d['doctest'], lineno=1)
